@@ -241,8 +241,8 @@ func checkC14(c genCase) pbt.Result {
 		if pbt.Known("F7") && !pbt.Replaying() && c.Edit == "hostile-field-name" && isF7(out) {
 			return pbt.Result{Excluded: "F7"}
 		}
-		if pbt.Known("F28") && !pbt.Replaying() && (c.Edit == "case-twin" || c.Edit == "same-go-name-across-namespaces") {
-			return pbt.Result{Excluded: "F28"}
+		if pbt.Known("F41") && !pbt.Replaying() && strings.Contains(out, "imported and not used") && strings.Contains(strings.Join(c.Args, " "), "--split-internal") && strings.Contains(strings.Join(c.Args, " "), "--generateByteVersions=*") {
+			return pbt.Result{Excluded: "F41"} // dictionary of dictionaries under --split-internal --generateByteVersions=*
 		}
 		return pbt.Fail("tl2gen accepted the schema (edit %s, options %v) but the generated code does not build:\n%s", c.Edit, c.Args, tailStr(out, 12))
 	}
